@@ -20,6 +20,7 @@ RULE = ('every non-mutator in the function table x typed argument templates (lis
         'functions, reverse flags, separators; called through eval in call/method/pipe spelling, directly as FUNCTIONS[name](*args), and in pipelines of 2-4 stages; plus '
         'ill-typed argument tuples (an exception must not have mutated anything either). Non-trivial = a non-mutator window whose arguments contained a container and whose '
         'fingerprints were compared; distinct = distinct (source | direct call description).')
+RULE += ' Host containers include proper subclasses of list and dict and a defaultdict (whose own index read inserts: not judged).'
 ASSUMPTIONS = ['mutators = push, pop, insert, remove, __setitem__, __setitem_with_op__, __delitem__ (index assignment, compound index assignment, del); everything else in the table is a non-mutator',
                'a window inside which a mutator or a host callback ran is excluded from the judgement (counted); the workload keeps those below 20 % of windows',
                'fingerprint = container identity + ordered element fingerprints (dict: ordered key/value pairs); scalars by type and repr']
